@@ -14,6 +14,11 @@ func (e *FilterExec) Explain() string {
 }
 
 func (e *FilterExec) Filter(kvp KVPair, ctx *ExecuteCtx) (bool, error) {
+	// Field results cached for the previous pair (which the filter may have
+	// rejected) must not be used for this one
+	if ctx != nil {
+		ctx.Clear()
+	}
 	ret, err := e.filterBatch([]KVPair{kvp}, ctx)
 	if err != nil {
 		return false, err
